@@ -355,7 +355,9 @@ def stepIndicator (d : Drv) (line : String) : Drv × Option String :=
             let i := { i with nVals := i.nVals + nv, nSigs := i.nSigs + ns, nSteps := i.nSteps + 1 }
             let d := { d with exempt := d.exempt + vex + sex, specs := d.specs + nv, lsteps := d.lsteps + ns }
             -- a borderline model decision (SAR flip within rounding) ends the value/signal comparison of the case
-            let i := { i with sigHold := if !finite then 1 else i.sigHold - 1 }
+            -- a non-finite value enters the signal state (crossing deltas; for TrendStrengthIndex the 4-element reversal window)
+            let hold := if i.name == "TrendStrengthIndex" then 8 else 1
+            let i := { i with sigHold := if !finite then hold else i.sigHold - 1 }
             let i := if so.borderline then { i with cmpVals := false, cmpSigs := false } else i
             let tag (m : String) := kindTag i ++ ":" ++ (m.splitOn " ").headD ""
             if so.borderline then ({ d with cs := .ind i, exempt := d.exempt + 1 }, none)
